@@ -100,3 +100,10 @@ TEXTS["C13"] = {
     "level_note": "Trusts the fault-free run as ground truth (its correctness is C01/C10/C11's subject), the harness partition handlers (FollowerHandler mirrors DB.queryForRemote), and httptest for the web part. The oracle is one-directional on purpose: an error or a 5xx on a complete result is not a C13 violation.",
     "technique": "property-based testing (rapid) with injected faults (deadlines, failing/blocking partition handlers, size limits), differential oracle against the fault-free run",
 }
+
+TEXTS["C14"] = {
+    "level_text": "Exploration by stateful model-based testing: generated histories of boundary-aimed inserts, clock advances, data-carrying and empty flushes and flush bursts on one table, checked after every flush and at generated check points against a model of the retention rules (never-stored / must-be-present / may-be-present / must-be-absent per period, exact aggregate for periods inside the window, reference aggregation for grouped and time-ranged queries). Finds off-by-one-period errors at the moving boundary, dropped in-window data after merges with expired file rows, resurrection and missed truncation. Does not establish absence.",
+    "design_ref": "DESIGN.md section 4 C14",
+    "level_note": "Trusts the model's reading of the statement (spelled out in the rule), the ingestion barrier, and that one table processes its stream in insertion order (so the clock at processing time is known). Expired-but-not-yet-truncated periods are only required to hold no more than was stored.",
+    "technique": "stateful model-based property testing (rapid): generated histories against a retention model with must/may/must-not period sets",
+}
